@@ -39,7 +39,7 @@ def run(ck):
     ck.trusted += ["harness/c07.py; model QV/Model/Prop.lean (genOps/genTensor) validated on generated inputs",
                    "the line-shape function g(t) of the analytic comparison is computed by the package's own c2g (double spline integral); "
                    "the comparison tolerance (time-step error) is a test, not a theorem"]
-    ck.prove(PROPS, extra_modules=["QV.Drive.Prop"], also=["QV.Props.C07Limits", "QV.Props.C07Basis"])
+    ck.prove(PROPS, extra_modules=["QV.Drive.Prop"], also=["QV.Props.C07Limits", "QV.Props.C07Basis", "QV.Props.C07Covariant"])
     lines, impl, tol = [], [], []
     cv = lambda a: SY.cvals(numpy, a)
 
